@@ -20,7 +20,10 @@ CLAIMED = {
              "in the build (found by probing all identifiers), with residues aimed at representation corner cases, "
              "reduction inputs reaching the final-subtraction / carry-out branches, exponents of all sign/size "
              "classes, alias patterns; oracle = Python modular arithmetic on values transported as raw internal digit "
-             "vectors, canonical form (< p) of every output, root-existence via Euler's criterion, error on inverse of 0.",
+             "vectors, canonical form (< p) of every output, root-existence via Euler's criterion, error on inverse of 0. One case in ten installs another prime "
+             "immediately before (constants derived at installation must not depend on the history); a failure that "
+             "does not reproduce standalone is re-run after each other prime and the reproducing history becomes part "
+             "of the case.",
         note="Inputs are canonical residues (API contract). Reduction inputs are products of two canonical elements. "
              "fp_exp_slide may report ERR_NO_BUFFER for exponents longer than RLC_FP_BITS+1 bits.",
         tech=PBT + "a Python Z/pZ reference on raw (Montgomery) digit vectors; canonical-form and variant-agreement oracles"),
@@ -209,7 +212,9 @@ CLAIMED = {
              "models (primality, irreducibility, family polynomials, non-residues, roots of unity, Montgomery and "
              "divstep constants, generator / order / cofactor via [h*r]P = O on reference-lifted random points, "
              "endomorphism and GLV lattice, twist consistency, Frobenius constants, embedding degree, security level, "
-             "hash-to-curve constants against the RFC 9380 criteria); point-based relations use generated points.",
+             "hash-to-curve constants against the RFC 9380 criteria; what the public order / cofactor accessors return; the "
+             "descriptors advertised when a set is selected right after a set of another kind); point-based relations "
+             "use generated points.",
         note="exhaustive refers to the (identifier, relation) space of each configuration; point material is generated. "
              "ep3/ep4/ep8 twists (k = 16..54) are covered by base-field / base-curve / embedding-degree relations only.",
         tech="exhaustive enumeration of parameter identifiers x relations + generated points, oracle = sympy and independent reference models",
@@ -232,7 +237,8 @@ CLAIMED = {
         tech="model-based property testing: generated programs / histories / schedules against an executable state-machine model and fresh-process differentials"),
     "C20": dict(
         text="Metamorphic search on -fsanitize-coverage=trace-pc builds: for batches of secret scalars of ONE public bit "
-             "length (random, low / high Hamming weight, runs, 2^(l-1), 2^l - 1, n-1, zero GLV halves) the recorded "
+             "length (from 5 bits and the one-digit lengths up to the order length; random, low / high Hamming weight, "
+             "runs, 2^(l-1), 2^l - 1, n-1, zero GLV halves) the recorded "
              "sequence of group-level operations of each ladder / regular-recoding routine (ep, ep2, g1/g2/gt _sec, eb, "
              "ed, bn / fp / fb ladders, bn_rec_reg) must be identical within the batch; for the masked copy / swap / "
              "compare primitives the full basic-block trace must be identical across data and condition bits. Variable-"
